@@ -49,6 +49,38 @@ def ty_contains(t, names):
     return None
 
 
+def _load_toml_minimal(path):
+    """very small TOML reader (tables, string/array/inline-table values on one line) used only when tomllib is missing"""
+    import ast as _ast
+    import re as _re
+    out, cur = {}, None
+    cur = out
+    for line in open(path, encoding="utf-8"):
+        line = line.split("#", 1)[0].strip() if '"' not in line else line.strip()
+        if not line:
+            continue
+        m = _re.match(r"^\[([^\]]+)\]$", line)
+        if m:
+            cur = out
+            for part in m.group(1).split("."):
+                cur = cur.setdefault(part.strip().strip('"'), {})
+            continue
+        if "=" in line:
+            k, v = line.split("=", 1)
+            k, v = k.strip().strip('"'), v.strip()
+            if v.startswith("{"):
+                d = {}
+                for kv in _re.findall(r'(\w+)\s*=\s*(\[[^\]]*\]|"[^"]*"|true|false)', v):
+                    d[kv[0]] = True if kv[1] == "true" else (False if kv[1] == "false" else _ast.literal_eval(kv[1]))
+                cur[k] = d
+            else:
+                try:
+                    cur[k] = True if v == "true" else (False if v == "false" else _ast.literal_eval(v))
+                except Exception:
+                    cur[k] = v
+    return out
+
+
 def intersect_operands(ctx, R):
     """shared by C07 (valid instances stay reachable) and C06 (only valid instances are admitted)"""
     # ---- R3: object intersection (allOf / sibling applicators): each operand's property is intersected with what the
@@ -186,27 +218,40 @@ def run(ctx):
     from . import c11 as _c11
     _c11.watermark_values(ctx, "C07-R2")
 
-    # ---- serde_json preserve_order in the resolved build
+    # ---- serde_json preserve_order requested by llguidance's OWN manifest (workspace siblings enabling the feature do not
+    # help a downstream crate that depends on llguidance alone).  The manifests are read directly — no cargo subprocess,
+    # which could block on cargo's package-cache lock when several checks or builds run at once.
     repo = extract.REPO
     try:
-        env = dict(os.environ)
-        env["CARGO_NET_OFFLINE"] = "true"
-        out = subprocess.run(["cargo", "metadata", "--offline", "--format-version", "1"], cwd=repo, env=env, capture_output=True, text=True, timeout=120)
-        md = json.loads(out.stdout)
-        node_by_id = {n["id"]: n for n in md["resolve"]["nodes"]}
-        pk = {p["id"]: p for p in md["packages"]}
-        llg = [p for p in md["packages"] if p["name"] == "llguidance"]
-        ok = False
-        feats = None
-        if llg:
-            # the library's OWN manifest must ask for the feature (workspace siblings enabling it do not help a
-            # downstream crate that depends on llguidance alone)
-            for dep in llg[0]["dependencies"]:
-                if dep["name"] == "serde_json" and dep.get("kind") in (None, "normal"):
-                    feats = dep.get("features", [])
-                    ok = "preserve_order" in feats
-        ctx.check(ok, "C07-R1", "serde_json:preserve_order", "serde_json is built with `preserve_order` for llguidance (features: %s)" % (feats,),
-                  "the resolved build no longer enables serde_json/preserve_order: serde_json::Map is a BTreeMap and schema key order is lost at parse time",
+        try:
+            import tomllib as _toml
+            load = lambda path: _toml.load(open(path, "rb"))
+        except ImportError:  # pragma: no cover - minimal fallback for older interpreters
+            load = _load_toml_minimal
+        root = load(os.path.join(repo, "Cargo.toml"))
+        members = root.get("workspace", {}).get("members", []) or ["."]
+        import glob as _glob
+        feats, found = None, False
+        for m in members:
+            for mdir in _glob.glob(os.path.join(repo, m)):
+                mf = os.path.join(mdir, "Cargo.toml")
+                if not os.path.exists(mf):
+                    continue
+                man = load(mf)
+                if man.get("package", {}).get("name") != "llguidance":
+                    continue
+                found = True
+                dep = man.get("dependencies", {}).get("serde_json")
+                feats = []
+                if isinstance(dep, dict):
+                    feats = list(dep.get("features", []))
+                    if dep.get("workspace"):
+                        wd = root.get("workspace", {}).get("dependencies", {}).get("serde_json")
+                        if isinstance(wd, dict):
+                            feats += list(wd.get("features", []))
+        ok = found and feats is not None and "preserve_order" in feats
+        ctx.check(ok, "C07-R1", "serde_json:preserve_order", "llguidance's manifest requests serde_json with `preserve_order` (features: %s)" % (feats,),
+                  "llguidance's own manifest no longer enables serde_json/preserve_order: serde_json::Map is a BTreeMap and schema key order is lost at parse time",
                   site="parser/Cargo.toml")
     except Exception as e:  # fail closed
-        ctx.violation("C07-R1", "serde_json:preserve_order:metadata-unavailable", "cargo metadata failed: %s" % e)
+        ctx.violation("C07-R1", "serde_json:preserve_order:manifest-unreadable", "could not read the manifests: %s" % e)
